@@ -155,11 +155,14 @@ class Forms:
         return self.cache[typed]
 
 
-def mkreq(forms, line, ts, tr, opts, plurals=True):
+def mkreq(forms, line, ts, tr, opts, plurals=True, cli=True):
+    """cli=True: the call of the CLI handlers (atomic configuration present, variant table from case_model.rs; modes q0/q1);
+    cli=False: core API without atomic configuration (the scanner's own variant loop; modes p0/p1)"""
+    m = "q" if cli else "p"
     if plurals:
         fs, fr = forms.get(ts), forms.get(tr)
-        return f"rewriteline {hexs(line)} {hexs(ts)} {hexs(tr)} {opts} p1 {fs[0]} {fs[1]} {fr[0]} {fr[1]}"
-    return f"rewriteline {hexs(line)} {hexs(ts)} {hexs(tr)} {opts} p0"
+        return f"rewriteline {hexs(line)} {hexs(ts)} {hexs(tr)} {opts} {m}1 {fs[0]} {fs[1]} {fr[0]} {fr[1]}"
+    return f"rewriteline {hexs(line)} {hexs(ts)} {hexs(tr)} {opts} {m}0"
 
 
 def out_line(out):
@@ -190,20 +193,10 @@ def classify(case, got):
     wrap = lambda x: d1 + x + d2 + "\n"
     # (a) [fixed in /repo by 70c1048 "tell Title Case and Sentence case apart"; no longer a finding class: a Sentence
     #     occurrence rewritten as Title is a VIOLATION again]
-    # (b) every default style excluded, nothing included: build_styles_list returns None and the scanner falls back to its
-    #     own default list (+ the search-as-typed -> replacement-as-typed entry)
-    if not en and parse_opts(opts)[0]:
-        if st in SCANNER7 and got == wrap(gen.render(st, R)):
-            return "exclude_all_reenables_defaults"
-        # the typed pair; an upper-case first letter of the match is then forced onto the typed replacement
-        # (when the typed search text is itself ambiguous, e.g. typed in Sentence case, the resolver styles the replacement)
-        if gen.render(st, S) == typed_s and got in ([wrap(typed_r), wrap(typed_r[:1].upper() + typed_r[1:])] +
-                                                     [wrap(gen.render(s2, R)) for s2 in gen.STYLES]):
-            return "exclude_all_reenables_defaults"
-    # (c) search typed without any separator (camelCase / PascalCase) and exactly one enabled style: the exact pass is
-    #     skipped, the occurrence in the only enabled style stays
-    if len(en) == 1 and st == en[0] and not any(c in typed_s for c in SEPS) and got == case["line"]:
-        return "single_style_separatorless_search_unmatched"
+    # (b) exclude_all_reenables_defaults: fixed in /repo by fcc6db2; (c) single_style_separatorless_search_unmatched: fixed by
+    #     1fd3fe0.  No class is left: every failure of the oracle is a VIOLATION.  In particular the occurrence spelled exactly
+    #     like the search term AS TYPED is judged like every other occurrence (C18's `exact_entry_override` concerns the variant
+    #     table built WITHOUT a style list, which no CLI option set produces any more).
     return "VIOLATION"
 
 
@@ -249,8 +242,16 @@ def mkcase(S, R, sst, rst, opts, st, d1, d2):
             "line": d1 + gen.render(st, S) + d2 + "\n"}
 
 
+def command_line(case):
+    if "search" not in case or "opts" not in case:
+        return None
+    return {"file a.txt": case.get("line"),
+            "argv": ["renamify", "rename", case["search"], case["replace"]] + cli_flags(case["opts"]) + ["-y"]}
+
+
 def report(ctx, case, req, impl, model, slug_or_v, note):
-    ctx.violation("input", {**case, "request": req}, expected=expected_line(case) if "style" in case else None,
+    ctx.violation("input", {**case, "request": req, "command": command_line(case)},
+                  expected=expected_line(case) if "style" in case else None,
                   observed=describe_out(impl), model_prediction=describe_out(model), note=note)
 
 
@@ -380,7 +381,7 @@ def run_context_family(ctx):
                         content, where = ctx_file(rng, S, R, occs, dominant, share)
                         files.append({"name": "notes." + ext, "content": content, "search": ts, "replace": tr, "opts": opts,
                                       "dominant": dominant, "share": share, "where": where, "rwords": rw})
-    reqs = [f"rewritefile {hexs(c['name'])} {hexs(c['content'])} {hexs(c['search'])} {hexs(c['replace'])} {c['opts']} p1"
+    reqs = [f"rewritefile {hexs(c['name'])} {hexs(c['content'])} {hexs(c['search'])} {hexs(c['replace'])} {c['opts']} q1"
             for c in files]
     outs = run_parallel(common.HARNESS_BIN, reqs)
     creqs, cmeta = [], []
@@ -455,6 +456,9 @@ def run(ctx):
         "rewriteline requests: (term pair, typed styles) combos [thorough: 12, one per boundary-visible input style of the search "
         "term; quick: the first 2 + one seed-chosen] x 12 boundary-visible occurrence styles x 11 delimiter contexts x 30 option "
         "sets (default, --only-styles each of 14, --exclude-styles each of 11, 3 --include-styles sets, exclude-all), exhaustive; "
+        "typed style pairs: search and replacement typed in independently chosen styles (thorough all 12 x 14, quick every pair inside "
+        "one separator family + a third of the rest) x 3 option sets x 12 occurrence styles, the as-typed occurrence on both "
+        "variant-table paths; "
         "ambiguity clause: flat occurrences and single-word search terms x option sets, and the same occurrences inside context-heavy "
         "files (60..120 identifiers, 62..100 % in one of 5 dominant styles) x 14 extensions x 23 preceding contexts through the real "
         "pipeline + the resolver contract on those contexts; filtercompat/resolve on 1500 (quick 500) "
@@ -462,6 +466,8 @@ def run(ctx):
         "distinct = distinct request line")
     ctx.cov["exhaustive"] = True
     ctx.assumptions += [
+        "requests use the CLI handlers' call (Some(AtomicConfig) with nothing atomic -> variant table from case_model.rs) unless marked "
+        "core-API (atomic_config = None -> the scanner's own variant loop); both are modelled and proved",
         "one-line ASCII file a.txt: no language heuristic, fewer than 50 identifiers (file-context heuristic silent), no project root",
         "acronym set = DEFAULT_ACRONYMS; vocabulary words are neutral (no acronym, no digit, regular plural)",
         "pluralizer crate answers are fed to the model as data (parameters sing/plur of the theorems)",
@@ -544,6 +550,45 @@ def run(ctx):
         ctx.sample({"finding": cls, "cases": len(items), "first": {k: c[k] for k in ("line", "search", "replace", "opts")},
                     "observed": out_line(impl)[1]})
 
+    # ---- the two terms TYPED in independently chosen styles (all 14 x 14 in thorough; quick: every pair inside one separator
+    #      family + a seed-chosen third of the others), every occurrence style incl. the one spelled exactly as typed --------
+    FAMILIES = [["snake", "screaming_snake"], ["kebab", "train", "screaming_train"], ["camel", "pascal"],
+                ["title", "sentence", "lower_sentence", "upper_sentence"]]
+    same_family = {(a, b) for fam in FAMILIES for a in fam for b in fam}
+    tcases, treqs = [], []
+    tp_terms = [(["alpha", "gamma"], ["tiger", "lemon"]), (["widget", "nova", "delta"], ["qux", "gadget"])]
+    k = 0
+    for ti, (S, R) in enumerate(tp_terms if ctx.thorough else tp_terms[:1]):
+        for sst in gen.STYLES:
+            for rst in gen.STYLES:
+                if sst in ("lower_flat", "upper_flat"):
+                    continue          # a search term typed without word boundaries is a one-word term (ambiguity family)
+                if not ctx.thorough and (sst, rst) not in same_family and rng.random() > 0.34:
+                    continue
+                for opts in ("default", "o=" + sst, "x=" + ("kebab" if sst != "kebab" else "snake")):
+                    for st in gen.V12:
+                        d1, d2 = DELIMS[k % len(DELIMS)]
+                        k += 1
+                        c = mkcase(S, R, sst, rst, opts, st, d1, d2)
+                        tcases.append(c)
+                        treqs.append(mkreq(forms, c["line"], c["search"], c["replace"], opts, cli=True))
+                        if st == sst:   # the occurrence spelled as typed: also through the core-API table
+                            tcases.append(c)
+                            treqs.append(mkreq(forms, c["line"], c["search"], c["replace"], opts, cli=False))
+    for c, (req, impl, model) in zip(tcases, correspond(ctx, "rewriteline (typed style pairs)", treqs)):
+        ctx.case(req)
+        status, got = out_line(impl)
+        cls = classify(c, got)
+        typed = c["line"] == c["d1"] + c["search"] + c["d2"] + "\n"
+        ctx.count("typed-pairs:" + ("as-typed:" if typed else "") + (cls or "ok"))
+        if status != "ok" or cls is not None:
+            fam = "same separator family" if (c["search_style"], c["replace_style"]) in same_family else "different families"
+            report(ctx, c, req, impl, model, "VIOLATION",
+                   f"search typed in {c['search_style']}, replacement typed in {c['replace_style']} ({fam}); occurrence in "
+                   f"{c['style']}" + (" = the search term exactly as typed" if typed else "")
+                   + ": not rewritten in its own style")
+            return
+
     # ---- plural variants off, other contexts: a sample of the same oracle -----------------------------------------
     cases2, reqs2 = [], []
     for _ in range(1500 if ctx.thorough else 300):
@@ -553,8 +598,9 @@ def run(ctx):
         d1, d2 = rng.choice(DELIMS)
         c = mkcase(S, R, sst, rst, opts, rng.choice(gen.V12), d1, d2)
         cases2.append(c)
-        reqs2.append(mkreq(forms, c["line"], c["search"], c["replace"], opts, plurals=rng.random() < 0.5))
-    for c, (req, impl, model) in zip(cases2, correspond(ctx, "rewriteline (random terms, plural variants on/off)", reqs2)):
+        reqs2.append(mkreq(forms, c["line"], c["search"], c["replace"], opts, plurals=rng.random() < 0.5,
+                           cli=rng.random() < 0.5))
+    for c, (req, impl, model) in zip(cases2, correspond(ctx, "rewriteline (random terms, plural variants on/off, CLI / core-API variant table)", reqs2)):
         ctx.case(req)
         cls = classify(c, out_line(impl)[1])
         ctx.count("random:" + (cls or "ok"))
